@@ -38,6 +38,12 @@ def floors(tier):
 def cases(tier, seed):
     for i, t in enumerate(TARGETED):
         yield {"targeted": i}
+    # the targeted collections of the plan audits (division-deriving operators, keyword surface incl. every join lowering)
+    from vmon import planaudit
+    from vmon.checks.c06 import TARGET_NAMES
+
+    for name in sorted(TARGET_NAMES) + planaudit.sk_names():
+        yield {"targeted_name": name}
     profiles = ["default", "structure", "blockwise", "projection", "filter", "default"]
     for i in range(CONFIG[tier]["programs"]):
         yield {"gen": [seed, i], "profile": profiles[i % len(profiles)]}
@@ -264,7 +270,20 @@ def run_case(case):
         counters[k] = counters.get(k, 0) + v
 
     prog = None
-    if "targeted" in case:
+    if "targeted_name" in case:
+        import os
+
+        from vmon import planaudit
+
+        tg = planaudit.targeted(os.environ.get("VMON_SCRATCH"))
+        try:
+            q = tg[case["targeted_name"]]()
+        except Exception:
+            return {"status": "refused", "counters": {"build_refused": 1}}
+        if not hasattr(q, "expr"):
+            return {"status": "undecided", "counters": {"not_a_collection": 1}}
+        tag = f"targeted:{case['targeted_name']}"
+    elif "targeted" in case:
         try:
             q = TARGETED[case["targeted"]]()
         except Exception as ex:
